@@ -233,3 +233,17 @@ Example C10_check_example_history :
   let line := [10; 2; 3; 0; 0; 3; 0x4014000000000000; 0x4010000000000000; 0; 0; 1; 0x3fe0000000000000; 0; 0x4010000000000000; 0; 0x4010aaaaaaaaaaab; 1; 0; 0; 3; 0x4010000000000000; 0; 0x4014000000000000; 0; 2; 0x3fe0000000000000; 0; 0x4010000000000000; 0x3fd0000000000000; 0; 0x3fe5555555555558; 0; 0x4010aaaaaaaaaaab; 1; 1; 0; 3; 0; 0x4010000000000000; 0x401c000000000000; 0; 1; 0x3fe0000000000000; 0; 0x4010000000000000; 0; 0x4017555555555555; 1]%Z in
   check_C10 line = verdict 0 2241 (-1) [] /\ exists c1 c2 c3, p_line line = Some ((true, [c1; c2; c3]), []).
 Proof. vm_compute. split; [reflexivity|do 3 eexists; reflexivity]. Qed.
+
+(* the decoder reads the right fields: the first line above parses to the sample {35,15,50,20,40},
+   unsorted, unweighted, five queries that all returned (status 0), the second one Quantile(0.5) = 35,
+   IQR = 42.5 - 17.5 = 25 (status 0), unmodified = 1 *)
+Example C10_parse_example :
+  match p_line [10; 0; 0; 5; 0x4041800000000000; 0x402e000000000000; 0x4049000000000000; 0x4034000000000000; 0x4044000000000000; 0; 5; 0x3fd999999999999a; 0; 0x403b000000000000; 0x3fe0000000000000; 0; 0x4041800000000000; 0xbff0000000000000; 0; 0x402e000000000000; 0x4000000000000000; 0; 0x4049000000000000; 0x3f847ae147ae147b; 0; 0x402e000000000000; 0; 0x4038ffffffffffff; 1]%Z with
+  | Some ((false, [(sorted, hasw, xs, ws, qs, ist, iv, unm)]), []) =>
+      sorted = false /\ hasw = false /\ Forall2 Qeq xs [35; 15; 50; 20; 40] /\ ws = [] /\
+      map (fun x => snd (fst x)) qs = [0; 0; 0; 0; 0]%Z /\
+      match nth_error qs 1 with Some (q, _, XFin r) => q == 1 # 2 /\ r == 35 | _ => False end /\
+      ist = 0%Z /\ match iv with XFin v => Qabs (v - 25) <= 1 # 1000000000 | _ => False end /\ unm = 1%Z
+  | _ => False
+  end.
+Proof. vm_compute. repeat split; try reflexivity; try discriminate; repeat constructor. Qed.
